@@ -41,6 +41,21 @@ def images(ctx, rng):
     top = 4096 if ctx.thorough else 512
     out = [b"", b"\x00", b"\xff", bytes(range(256)), b"\xff" * 257, b"\xff" * 514, b"\xff" * 256 + b"\xfe\x01", b"\x00" * 300,
            b"\xff" * 257 + b"\x00" * 10]
+    # byte sums at every boundary of the end-around carry: k*65535 + d and k*65536 + d (one fold, two
+    # folds, a fold that carries again), built from 0xFF bytes and a remainder
+    sums = set()
+    for k in range(1, 16 if ctx.thorough else 4):
+        for d in (-2, -1, 0, 1, 2):
+            sums.add(k * 65535 + d)
+            sums.add(k * 65536 + d)
+        sums.add(k * 65536 + 65535 - k + 1)      # (S & 0xFFFF) + (S >> 16) = 0x10000 exactly
+        sums.add(k * 65536 + 65535)
+    for target in sorted(sums):
+        body = bytearray(b"\xff" * (target // 255))
+        if target % 255:
+            body.append(target % 255)
+        rng.shuffle(body)
+        out.append(bytes(body))
     for _ in range(400 if ctx.thorough else 24):
         n = rng.choice([1, 2, 3, 7, 16, 20, 64, 255, 256, 257, rng.randrange(0, top + 1)])
         mode = rng.random()
@@ -65,7 +80,7 @@ def run(ctx):
     rng = ctx.rng("c13")
     ff = impl.mod("formats").file_formats
     ctx.rule = ("file_formats[raw|bin|bk_wav|bk_turbo_wav] on images of 0-512 (thorough: 0-4096) bytes incl. byte sums that are multiples of "
-                "65535, bases over the whole range, tape names 0-16 bytes; every CLI/directive output selector and path form through "
+                "65535 and byte sums k*65535+d, k*65536+d, k*65536+65535 (k <= 3, thorough 15; d in -2..2: every boundary of the end-around carry), bases over the whole range, tape names 0-16 bytes; every CLI/directive output selector and path form through "
                 "main_cli in a scratch directory. distinct = distinct (format, base, name, image); non-trivial = non-empty image or a path case")
     reqs = []
     jobs = []
